@@ -72,7 +72,12 @@ MANIFEST = dict(
          'save that may raise half-way, every view still denotes what the file held and unowned lumps are untouched '
          '(c10_aborted_save_keeps_content), and any further looks followed by a save that completes are lossless with respect to the '
          'original file (c10_retry_after_aborted_save_lossless); without it a closed history loses a lump on the second save (the pinned '
-         'tree before fix c8f05ec).',
+         'tree before the repair). The repair on the integrated tree is the late-pop form of the loop (read the cached value, run the '
+         'writer, consume its result, only then delete the cache entry: generated flag bsp_save_pops_late), which equals pop-first + '
+         'put-back-on-raise when no writer looks at its own view (obligation late_pop_only_where_no_writer_looks_at_its_own_view). '
+         'Header versions of lumps are cells no look touches: a writer may store into the header of its main lump only the number the '
+         'reader recorded (self.static_prop_version.version, looked up in a table keyed by the header number); then save leaves every '
+         'lump version as it was (c10_header_version_store_of_recorded_number_is_invisible; another number refuted).',
     note='Assumed in the theorems (visible hypotheses): each lump writer inverts its reader on the file\'s lumps (codec_ok, '
          'wr_len_ok: property C11); decompress (compress d) = d (CPython lzma). The container theorem is about the model '
          'Fmt/BspContainer.v, tied to BSP.read/BSP.save by byte-exact correspondence on random containers (not by a translator of '
@@ -1527,7 +1532,8 @@ def run(ck: Ck) -> None:
     # a false codec premise is explained by a concrete look + save history that changes content, raises or is unstable
     if kinds & {'hangs', 'oracle-raises'}:
         ck.explain('correspondence:')
-    if kinds & {'view-content-changed', 'save-raises', 'look-raises', 'reread-fails', 'second-save-differs', 'raw-changed', 'hangs'}:
+    if kinds & {'view-content-changed', 'save-raises', 'look-raises', 'reread-fails', 'second-save-differs', 'raw-changed', 'hangs',
+                'lost-after-aborted-save', 'game-lump-directory'}:
         for nm, ok in codec.items():
             if not ok:
                 ck.explain('instance:' + nm)
